@@ -21,6 +21,12 @@ CHAIN_ROOTS = ["normal", "gauss", "uniform", "beta", "gamma", "invgamma", "logno
 CHAIN_B = ["normal_mean", "normal_std", "normal_both", "gauss_mean", "gauss_cov", "laplace_loc", "cauchy_loc",
            "lognormal_mean", "gamma_rate", "beta_alpha", "lognormal_cov"]
 CHAIN_C = ["gauss_ab", "normal_a_b", "gauss_b", "lognormal_ab", "none"]
+# size-deferred distributions: every size-bearing parameter is a conditioning variable and no geometry is given, so the
+# dimension is unknown until conditioning (copies derived from one original get DIFFERENT dimensions)
+DEFERRED = ["normal_ms", "laplace_none", "gamma_ms", "uniform_ms", "cauchy_ms", "none"]
+DEFERRED_DEPS = {"normal_ms": ["m", "s"], "laplace_none": ["location", "scale"], "gamma_ms": ["m", "s"],
+                 "uniform_ms": ["m", "s"], "cauchy_ms": ["m", "s"]}
+DEFERRED_LENGTHS = [3, 5, 2]      # length of the probe values number 0, 1, 2 of the size-bearing parameter
 CHAIN_LOOSE = ["none", "normal_none", "gauss_none", "gauss_mean_none", "lognormal_none"]
 
 ROOT_SUPPORT = {"normal": "real", "gauss": "real", "uniform": "interval", "beta": "unit", "gamma": "pos",
@@ -54,7 +60,10 @@ def structure(case):
         if order:
             names = [names[i % len(names)] for i in _perm(order, len(names))]
         # "z": a free-standing distribution with the dimension of x (forward models get applied to it as well)
-        return {"nodes": names, "deps": deps, "support": support, "loose": {"z": []}}
+        loose = {"z": []}
+        if o.get("defer", "none") != "none":
+            loose["e"] = list(DEFERRED_DEPS[o["defer"]])
+        return {"nodes": names, "deps": deps, "support": support, "loose": loose}
     if case["tpl"] == "chain":
         deps = {"a": []}
         support = {"a": ROOT_SUPPORT[o["a"]]}
@@ -75,6 +84,8 @@ def structure(case):
             loose["q"] = ["mean"]
         elif o["loose"] == "lognormal_none":
             loose["q"] = ["mean"]
+        if o.get("defer", "none") != "none":
+            loose["e"] = list(DEFERRED_DEPS[o["defer"]])
         return {"nodes": names, "deps": deps, "support": support, "loose": loose}
     raise ValueError(case["tpl"])
 
